@@ -72,7 +72,7 @@ def strategy(draw, tier="quick"):
     for _ in range(draw(st.sampled_from([0, 0, 1, 2, 4]))):
         kind = draw(st.sampled_from(["replace", "replace", "replace_last", "delete", "insert"]))
         mods.append({"op": kind, "k": draw(st.integers(0, 20)), "off_ms": draw(st.one_of(st.integers(0, 20), st.integers(0, 100_000))), "dur_us": draw(st.sampled_from([0, 1000, 10**6, 5 * 10**6, 50 * 10**6]))})
-    return {"backend": draw(st.sampled_from(stores.BACKENDS)), "base": base, "events": evs, "mods": mods, "windows": wins, "limits": draw(st.lists(st.sampled_from([-7, -1, 0, 1, 2, 3, 100]), min_size=1, max_size=3, unique=True))}
+    return {"backend": draw(st.sampled_from(stores.BACKENDS)), "base": base, "events": evs, "mods": mods, "first_read_limit1": draw(st.booleans()), "windows": wins, "limits": draw(st.lists(st.sampled_from([-7, -1, 0, 1, 2, 3, 100]), min_size=1, max_size=3, unique=True))}
 
 
 def known_key(case, v):
@@ -126,6 +126,16 @@ def run_case(case):
                         raise Violation(f"{be}: limit-1 read on a non-empty bucket returned {last!r}")
                     b.replace_last(ev)
                     stored[last[0].id] = new
+        if case.get("first_read_limit1") and stored:
+            # the very first read after the history is a windowless limit-1 read: it must return a newest event
+            with sut(f"{be}: get(limit=1) right after the history"):
+                one = b.get(limit=1)
+            top = max(v[0] for v in stored.values())
+            if len(one) != 1 or one[0].id not in stored or stored[one[0].id][0] != top:
+                raise Violation(
+                    f"{be}: get(limit=1) right after the history returned {[(x.id, gen.to_us(x.timestamp) - base) for x in one]}, the newest stored timestamp is {top - base} "
+                    f"(stored {[(i, v[0] - base) for i, v in sorted(stored.items())]}; events {case['events']}; modifications {case.get('mods')})"
+                )
         ivs = sorted(v[:2] for v in stored.values())
         overlap = any(y[0] < x[1] for x, y in zip(ivs, ivs[1:])) or any(x[0] <= y[0] and y[1] <= x[1] and x != y for x in ivs for y in ivs)
         for w in case["windows"]:
